@@ -345,3 +345,50 @@ package table
 //@   assert[enter-at-last-entry] before call seekToLast : called(setBlock#1)
 //@   assert[previous-block-when-exhausted] before call prev#2 : !ret(Valid#1) && itr.bi.data == nil
 
+// ---- building a table (C18): every entry goes into exactly one block, in order ----
+
+//@ func (*Builder).Add
+//@   props C18
+//@   light
+//@   assert[entry-as-given] before call addInternal : arg0 == b && arg1 == key && arg2 == value && arg3 == valueLen && !arg4
+
+//@ func (*Builder).AddStaleKey
+//@   props C18 C13
+//@   light
+//@   assert[entry-as-given-and-stale] before call addInternal : arg0 == b && arg1 == key && arg2 == v && arg3 == valueLen && arg4
+
+// addInternal: when the entry would not fit, the current block is finished first and a new one
+// is started; the entry itself is always added (to the current or to the new block).
+//@ func (*Builder).addInternal
+//@   props C18
+//@   light
+//@   assert[finish-only-when-full] before call finishBlock : ret(shouldFinishBlock#1)
+//@   assert[entry-always-added] before return : called(addHelper#1)
+//@   assert[entry-added-as-given] before call addHelper : arg1 == key && arg2 == value && arg3 == valueLen
+//@   assert[new-block-after-finish] before call Allocate : called(finishBlock#1)
+
+// finishBlock: the block ends with its entry offsets, their count, the checksum of everything
+// before the checksum, and the checksum's length; it is then queued as it is.
+//@ func (*Builder).finishBlock
+//@   props C18
+//@   light
+//@   assert[offsets-then-count] before call append#2 : called(append#1) && arg1 == ret(U32ToBytes#1)
+//@   assert[offsets-of-this-block] before call U32SliceToBytes : arg0 == b.curBlock.entryOffsets
+//@   assert[count-of-offsets] before call U32ToBytes#1 : arg0 == uint32(len(b.curBlock.entryOffsets))
+//@   assert[checksum-over-entries-and-offsets] before call calculateChecksum : len(arg1) == b.curBlock.end && (len(arg1) > 0 ==> sameRegion(arg1, b.curBlock.data))
+//@   assert[checksum-then-its-length] before call append#4 : arg1 == ret(U32ToBytes#2) && called(append#3)
+//@   assert[checksum-appended] before call append#3 : arg1 == ret(calculateChecksum#1)
+//@   assert[checksum-length] before call U32ToBytes#2 : arg0 == uint32(len(ret(calculateChecksum#1)))
+//@   assert[empty-block-not-written] before return#1 : len(b.curBlock.entryOffsets) == 0
+
+// buildData.Copy: blocks in order (each up to its end), then the index, its length, the
+// checksum and its length.
+//@ func (*buildData).Copy
+//@   props C18
+//@   light
+//@   assert[index-after-blocks] before call copy#2 : arg1 == bd.index
+//@   assert[index-length] before call U32ToBytes#1 : arg0 == uint32(len(bd.index))
+//@   assert[checksum-after-index-length] before call copy#4 : arg1 == bd.checksum
+//@   assert[checksum-length] before call U32ToBytes#2 : arg0 == uint32(len(bd.checksum))
+//@   assert[block-up-to-its-end] before call copy#1 : len(arg1) == bl.end && (len(arg1) > 0 ==> sameRegion(arg1, bl.data))
+
